@@ -430,7 +430,7 @@ package nfsv4
 // that channel must have been registered with the slot, because the original
 // sends its result to exactly the registered waiters.
 //@ func (*nfs41Program).opSequence
-//@   props C19
+//@   props C19 C14
 //@   at call recv#1 assert blocked-duplicate-is-registered:
 //@             len(slot.currentSequenceWaiters) > 0 &&
 //@             slot.currentSequenceWaiters[len(slot.currentSequenceWaiters)-1] == ch
